@@ -3084,23 +3084,21 @@ func backoffDelay(faults int64, initialDelay, maxDelay time.Duration) time.Durat
 		return 0
 	}
 
-	// time.Duration is an int64 nanosecond count, so 62 doublings of even the
-	// smallest positive delay (1ns << 62 ≈ 146 years) exceed any sane maxDelay
-	// and one more doubling overflows int64. Cap early rather than rely on the
-	// wraparound check below.
+	// time.Duration is an int64 nanosecond count: 63 or more doublings of any
+	// positive delay exceed every representable maxDelay.
 	shift := faults - 1
-	if shift >= 62 {
+	if shift >= 63 {
 		return maxDelay
 	}
 
-	// a single shift can still wrap around for larger initial delays
-	// (e.g. 100ms << 40); a wrapped value is negative or huge, both clamp
-	delay := initialDelay << uint(shift)
-	if delay <= 0 || delay > maxDelay {
+	// compare against maxDelay shifted down rather than shifting initialDelay
+	// up: the left shift can wrap around to a small positive value that would
+	// pass a "delay <= 0 || delay > maxDelay" test (e.g. (2^32+1)ns << 33).
+	if initialDelay > maxDelay>>uint(shift) {
 		return maxDelay
 	}
 
-	return delay
+	return initialDelay << uint(shift)
 }
 
 // childAddress returns the address of the given child actor provided the name
